@@ -566,3 +566,77 @@ func VerifC07FanInDyn() {
 	vassert(rerr != nil, "values that cannot be merged make the run fail")
 	vassert(!strings.Contains(rerr.Error(), "panic"), "with an ordinary error, not a recovered panic")
 }
+
+// one branch value attached behind two nodes (as the second branch of a and the only branch of c): the run-time check
+// of its string-typed condition guards it at both places
+func VerifC07SharedBranch() {
+	ctx := context.Background()
+	vcfg("fifo", 1)
+	vcfg("selectfirst", 1)
+	dyn := vchoose("dyn", 3) // what a and c emit: 0 a string, 1 an int, 2 nil
+	val := func() any {
+		switch dyn {
+		case 0:
+			return "s"
+		case 1:
+			return 7
+		}
+		return nil
+	}
+	g := NewGraph[any, any]()
+	_ = g.AddLambdaNode("a", InvokableLambda(func(ctx context.Context, in any) (any, error) { return val(), nil }))
+	_ = g.AddLambdaNode("c", InvokableLambda(func(ctx context.Context, in any) (any, error) { return val(), nil }))
+	_ = g.AddLambdaNode("x", InvokableLambda(func(ctx context.Context, in any) (any, error) { return map[string]any{"x": 1}, nil }))
+	_ = g.AddLambdaNode("y", InvokableLambda(func(ctx context.Context, in any) (any, error) { return map[string]any{"y": 1}, nil }))
+	ends := map[string]bool{"x": true, "y": true}
+	audit := NewGraphBranch(func(ctx context.Context, in any) (string, error) { return "x", nil }, ends)
+	shared := NewGraphBranch(func(ctx context.Context, in string) (string, error) { return "y", nil }, ends)
+	var errs []error
+	errs = append(errs, g.AddEdge(START, "a"))
+	which := vchoose("second", 2) // which node the run goes through second... both are fed by START
+	if which == 1 {
+		errs = append(errs, g.AddEdge(START, "c"))
+	}
+	order := vchoose("order", 2)
+	if order == 0 {
+		errs = append(errs, g.AddBranch("a", audit), g.AddBranch("a", shared), g.AddBranch("c", shared))
+	} else {
+		errs = append(errs, g.AddBranch("c", shared), g.AddBranch("a", audit), g.AddBranch("a", shared))
+	}
+	errs = append(errs, g.AddEdge("x", END), g.AddEdge("y", END))
+	for _, e := range errs {
+		vassert(e == nil, "every construction step is accepted")
+	}
+	if which == 0 {
+		// c is not connected to START: give it an entry so that the graph is well-formed
+		vassert(g.AddEdge("x", "c") == nil, "edge x->c accepted")
+	}
+	r, err := g.Compile(ctx, WithMaxRunSteps(6))
+	vassert(err == nil, "graph with a shared branch value compiles")
+	var rerr error
+	if vchoose("stream", 2) == 1 {
+		sr, e := r.Stream(ctx, 0)
+		rerr = e
+		if e == nil {
+			for i := 0; i < 4; i++ {
+				if _, e := sr.Recv(); e != nil {
+					if e != io.EOF {
+						rerr = e
+					}
+					break
+				}
+			}
+			sr.Close()
+		}
+	} else {
+		_, rerr = r.Invoke(ctx, 0)
+	}
+	if dyn == 0 {
+		if rerr != nil {
+			vassert(!strings.Contains(rerr.Error(), "panic") && !strings.Contains(rerr.Error(), "unexpected input type"), "no type failure for fitting values")
+		}
+		return
+	}
+	vassert(rerr != nil, "a value that is not a string is rejected before the string-typed condition")
+	vassert(!strings.Contains(rerr.Error(), "panic") && !strings.Contains(rerr.Error(), "unexpected input type"), "by the run-time check, with an ordinary error")
+}
